@@ -153,7 +153,7 @@ def run(ctx):
     counter = itertools.count()
     combos = [(k, v, c, p) for k in S.KEY_MAPS for v in S.VALUE_MAPS for c in S.COMPRESSIONS for p in (True, False)]
     try:
-        n_trees = 90 if ctx.thorough else 48
+        n_trees = 150 if ctx.thorough else 60
         ci = 0
         # corpus: clone below a sibling of its first occurrence; same data under two explicit ids; kinds differ
         corpus = [
